@@ -348,6 +348,40 @@ def check_thick(rep, sc, threads, rng, idx, tier):
                 break
         if d:
             break
+    if d is None and idx % 3 == 1:
+        # an integer layer mapped alone (nothing promotes the sample cube to float): missing samples are still missing
+        try:
+            with np.errstate(all="ignore"):
+                with warnings.catch_warnings():
+                    warnings.simplefilter("ignore")
+                    q = call_map(dg, [dg.layer("level", operation=op2)], dict(kw, resolution=dict(res)))
+            lvals = np.where(ids > 0, ids * 3.0, np.nan)
+            with np.errstate(all="ignore"):
+                with warnings.catch_warnings():
+                    warnings.simplefilter("ignore")
+                    lexp = getattr(np, op2)(lvals, axis=0)
+            if op2 in ("sum", "nansum"):
+                lexp = lexp * step
+            lfac = float((1.0 * q.layers[0]["unit"]).to("cm" if op2 in ("sum", "nansum") else "dimensionless").magnitude)
+            ldata = q.layers[0]["data"]
+            amb = (ids == -2).any(axis=0)
+            for j in range(ny):
+                for i in range(nx):
+                    if amb[j, i] or d:
+                        continue
+                    m = bool(np.ma.getmaskarray(ldata)[j, i])
+                    g = float(np.ma.getdata(ldata)[j, i]) * lfac
+                    e = float(lexp[j, i])
+                    if math.isnan(e):
+                        if not (m or math.isnan(g)):
+                            d = f"pixel: integer layer alone, ({i},{j}) operation {op2}: {g!r}, expected missing (column samples {lvals[:, j, i].tolist()})"
+                    elif m or abs(g - e) > 1e-12 * max(abs(e), 1e-30):
+                        d = f"pixel: integer layer alone, ({i},{j}) operation {op2}: {'masked' if m else repr(g)}, expected {e!r} (column samples {lvals[:, j, i].tolist()})"
+        except RuntimeError as e:
+            if not ((ids == -1).all() and "No cells were selected" in str(e)):
+                d = f"raises: integer layer alone, operation {op2}: RuntimeError: {e}"
+        except Exception as e:
+            d = f"raises: integer layer alone, operation {op2}: {type(e).__name__}: {e}"
     if d:
         rep.mismatch({"module": "MapMachine", "field": d.split(":")[0], "kind": "thick"}, f"{describe(sc, kw)} op={op}/{op2} threads={t}: {d}", case={"sc": sc, "idx": idx}, module="maps")
     else:
